@@ -1,6 +1,6 @@
 """C04 - regenerate resamples exactly the selection and returns the MH weight."""
 from ..common import Check
-from .. import gficheck
+from .. import gficheck, gfirecord
 
 QUICK = ["f2", "fn3", "fs", "fvf", "fc"]
 THOROUGH = QUICK + ["fv", "fr", "fa", "fd", "fsc", "fvs"]
@@ -20,4 +20,5 @@ def run(tier, argv):
     chk.cov["rule"] = ("every (simulated trace, selection from SelsFor(program): all/none/str/tup/complements/unions over the program's own "
                        "address paths, new argument, outcome of every resampled site) behaviour of DoRegenerate; plan b starts from the 3 "
                        "constant-script traces per argument")
+    chk.cov["recorded_events"] = gfirecord.run_b(chk, {"regenerate"}, QUICK if tier == "quick" else THOROUGH, 14 if tier == "quick" else 150)
     return chk.finish()
